@@ -103,6 +103,9 @@ def prepare(need_cli=False, need_src=True):
                 s = os.path.join(SNAP, f)
                 if os.path.isdir(s): shutil.copytree(s, os.path.join(P.srcdir, f))
                 elif os.path.exists(s): shutil.copy(s, os.path.join(P.srcdir, f))
+            if not os.path.exists(os.path.join(SNAP, "Cargo.lock")):
+                # Cargo.lock is git-ignored in the repository: fall back to the recorded copy
+                shutil.copy(os.path.join(VERIF, "harness", "Cargo.lock.base"), os.path.join(SNAP, "Cargo.lock"))
             shutil.copy(os.path.join(SNAP, "Cargo.lock"), os.path.join(VERIF, "harness", "Cargo.lock"))
             tgt = os.path.join(CACHE, "target")
             r = sh(["cargo", "build", "--release", "--offline"], cwd=os.path.join(VERIF, "harness"),
